@@ -238,12 +238,14 @@ func suiteServeX(e *emitter, depth int) {
 		{Origins: []string{"*"}, RequestHeaders: []string{"*", "Authorization"}},
 		{Origins: []string{"https://a.com"}, ExtraConfig: cors.ExtraConfig{PrivateNetworkAccess: true}, Methods: []string{"PUT"}},
 		{Origins: []string{"https://a.com"}, ExtraConfig: cors.ExtraConfig{PrivateNetworkAccessInNoCORSModeOnly: true}, Credentialed: true},
+		{Origins: []string{"https://*.github.io", "https://a.com"}, ExtraConfig: cors.ExtraConfig{DangerouslyTolerateSubdomainsOfPublicSuffixes: true}},
+		{Origins: []string{"http://*.co.uk:*"}, Credentialed: true, ExtraConfig: cors.ExtraConfig{DangerouslyTolerateSubdomainsOfPublicSuffixes: true, DangerouslyTolerateInsecureOrigins: true}},
 	}
 	type opt struct {
 		present bool
 		v       []string
 	}
-	origins := []opt{{false, nil}, {true, []string{"https://a.com"}}, {true, []string{"https://x.b.com:8080"}}, {true, []string{"https://evil.com"}}, {true, []string{"https://a.com/"}}, {true, []string{""}}, {true, []string{}}}
+	origins := []opt{{false, nil}, {true, []string{"https://a.com"}}, {true, []string{"https://x.b.com:8080"}}, {true, []string{"https://evil.com"}}, {true, []string{"https://foo.github.io"}}, {true, []string{"http://foo.co.uk:81"}}, {true, []string{"https://a.com/"}}, {true, []string{""}}, {true, []string{}}}
 	acrms := []opt{{false, nil}, {true, []string{""}}, {true, []string{}}, {true, []string{"GET"}}, {true, []string{"PUT"}}, {true, []string{"put"}}, {true, []string{"DELETE"}}, {true, []string{"PUT", "GET"}}}
 	acrhs := []opt{{false, nil}, {true, []string{}}, {true, []string{""}}, {true, []string{"x-a"}}, {true, []string{"authorization,x-a"}}, {true, []string{"x-a", "authorization"}}, {true, []string{" x-a\t"}}, {true, []string{"x-c"}}, {true, []string{"X-A"}}}
 	acrpns := []opt{{false, nil}, {true, []string{"true"}}, {true, []string{"false"}}}
